@@ -183,7 +183,9 @@ def _rest(ctx: Ctx, env, tm, it_fn, tc_fn):
     T = lambda k: RefV(AST + k)  # noqa: E731
     expectations = [("single", T("String"), {"String"}), ("tuple", PyTuple([T("Identifier"), T("String")]), {"Identifier", "String"}),
                     ("tuple1", PyTuple([T("Integer")]), {"Integer"})]
-    actuals = [None, "String", "Identifier", "Integer", "Boolean", "List"]
+    # every class type inference can answer with: the literal classes (a subclass relation between two of them must not make one
+    # pass for the other) and Identifier
+    actuals = [None, "Identifier"] + sorted(k for k in schema.concrete() if schema.is_sub(k, "_Literal"))
     n_grid = 0
     for ename, evalue, allowed in expectations:
         for actual in actuals:
